@@ -538,11 +538,11 @@ class FileBasedPacketSerializer(BufferedIncrementalPacketSerializer[_T_SentDTOPa
                 if not initial:
                     buffer.write((yield))
                     buffer.seek(0)
-                self.__check_file_buffer_limit(buffer)
                 try:
                     packet: _T_ReceivedDTOPacket = self.load_from_file(buffer)
                 except EOFError:
-                    pass
+                    # Everything buffered so far is one incomplete packet.
+                    self.__check_file_buffer_limit(buffer)
                 except self.__expected_errors as exc:
                     msg = f"Deserialize error: {exc}"
                     if self.debug:
@@ -553,6 +553,9 @@ class FileBasedPacketSerializer(BufferedIncrementalPacketSerializer[_T_SentDTOPa
                         ) from exc
                     raise IncrementalDeserializeError(msg, remaining_data=buffer.read()) from exc
                 else:
+                    if (consumed := buffer.tell()) > self.__limit:
+                        with buffer.getbuffer() as buffer_view:
+                            raise LimitOverrunError("packet exceeded buffer limit", buffer_view, consumed=consumed)
                     return packet, buffer.read()
                 finally:
                     initial = False
